@@ -2,6 +2,7 @@ package main
 
 import (
 	"context"
+	"encoding/base64"
 	"encoding/json"
 	"fmt"
 	"io"
@@ -127,6 +128,7 @@ func (s *authStream) RecvMsg(m interface{}) error {
 }
 
 type c05Input struct {
+	Basic  *c05Basic `json:"basic,omitempty"` // a case of the credential check itself
 	Method string   `json:"method"`
 	Kind   string   `json:"kind"`
 	Cred   string   `json:"cred"` // none bad A B
@@ -141,12 +143,75 @@ type c05Obs struct {
 	Code     string        `json:"code"`
 }
 
+// ---------- the credential check itself: accounts.BasicAuth.Validate ----------
+type c05Basic struct {
+	Accounts [][2]string `json:"accounts"`
+	Key      string      `json:"key"`    // metadata key the header is sent under
+	Header   string      `json:"header"` // raw header value ("" = none)
+	User     string      `json:"user"`   // what a well-formed header decodes to (Decodes = true)
+	Pass     string      `json:"pass"`
+	Decodes  bool        `json:"decodes"`
+}
+
+func basicCases() []c05Basic {
+	accts := [][][2]string{{}, {{"A", "pa"}}, {{"A", "pa"}, {"B", ""}}, {{"A", "pa"}, {"A", "pb"}, {"", "x"}}}
+	users := []string{"A", "B", "C", "", "a", "A "}
+	passes := []string{"pa", "pb", "", "x", "pa ", "p:a"}
+	out := []c05Basic{}
+	for _, ac := range accts {
+		for _, u := range users {
+			for _, p := range passes {
+				h := "Basic " + base64.StdEncoding.EncodeToString([]byte(u+":"+p))
+				out = append(out, c05Basic{Accounts: ac, Key: "authorization", Header: h, User: u, Pass: p, Decodes: true})
+			}
+		}
+		out = append(out,
+			c05Basic{Accounts: ac, Key: "Authorization", Header: "Basic " + base64.StdEncoding.EncodeToString([]byte("A:pa")), User: "A", Pass: "pa", Decodes: true},
+			c05Basic{Accounts: ac, Key: "authorization", Header: ""},
+			c05Basic{Accounts: ac, Key: "other", Header: "Basic " + base64.StdEncoding.EncodeToString([]byte("A:pa"))},
+			c05Basic{Accounts: ac, Key: "authorization", Header: "Bearer " + base64.StdEncoding.EncodeToString([]byte("A:pa"))},
+			c05Basic{Accounts: ac, Key: "authorization", Header: "Basic !!!not-base64"},
+			c05Basic{Accounts: ac, Key: "authorization", Header: "Basic " + base64.StdEncoding.EncodeToString([]byte("Apa"))},
+			c05Basic{Accounts: ac, Key: "authorization", Header: "A:pa"})
+	}
+	return out
+}
+
+func addBasicCase(ctx *Ctx, b c05Basic) {
+	ba := accounts.BasicAuth{}
+	for _, a := range b.Accounts {
+		ba = append(ba, accounts.BasicCredential{User: a[0], Password: a[1]})
+	}
+	md := accounts.MetaData{}
+	if b.Header != "" {
+		md[b.Key] = []string{b.Header}
+	}
+	got, err := ba.Validate(md)
+	acs := make([]string, len(b.Accounts))
+	for i, a := range b.Accounts {
+		acs[i] = coq.Pair(coq.Str(a[0]), coq.Str(a[1]))
+	}
+	hdr := "None"
+	if b.Decodes && b.Header != "" && (b.Key == "authorization" || b.Key == "Authorization") {
+		hdr = "(Some " + coq.Pair(coq.Str(b.User), coq.Str(b.Pass)) + ")"
+	}
+	g := "None"
+	obs := "refused"
+	if err == nil {
+		g = "(Some " + coq.Str(got) + ")"
+		obs = "validates as " + got
+	}
+	key, _ := json.Marshal(b)
+	ctx.Add(Case{Input: c05Input{Basic: &b}, Observed: obs, Coq: "(CBasic " + coq.List(acs) + " " + hdr + " " + g + ")", Nontrivial: err == nil,
+		Key: "basic:" + string(key), Tags: []string{"kind=BasicAuth.Validate", "verdict=" + map[bool]string{true: "validates", false: "refused"}[err == nil]}})
+}
+
 func runC05(ctx *Ctx) error {
 	ctx.EvalMod = "Eval_C05"
-	ctx.CaseTy = "c05_case"
+	ctx.CaseTy = "c05_any"
 	ctx.Shard = 500
 	ctx.Exhaustive = true
-	ctx.Rule = "exhaustive: every method of the four generated ServiceDescs (driven through its generated handler, so the request message has its real type) x credentials {none, bad, user A, user B} x request graph {g, h} x policies {allow-all, deny-all, 6 pseudo-random allow/deny grids over user x graph (incl. the wildcard '*') x operation class}; BulkAdd additionally with element streams over graphs g/h; observed: was the handler reached (codes.Unimplemented from the Unimplemented*Server), which Enforce calls were made, error code; non-trivial = credentials validate; distinct by input"
+	ctx.Rule = "BasicAuth.Validate on 4 account lists (empty, one, two incl. an empty password, duplicate name and empty name) x 36 (user, password) pairs incl. unknown users, empty and near-miss values, plus missing / misplaced / non-Basic / undecodable headers; and exhaustive: every method of the four generated ServiceDescs (driven through its generated handler, so the request message has its real type) x credentials {none, bad, user A, user B} x request graph {g, h} x policies {allow-all, deny-all, 6 pseudo-random allow/deny grids over user x graph (incl. the wildcard '*') x operation class}; BulkAdd additionally with element streams over graphs g/h; observed: was the handler reached (codes.Unimplemented from the Unimplemented*Server), which Enforce calls were made, error code; non-trivial = credentials validate; distinct by input"
 	descs := []grpc.ServiceDesc{gripql.Query_ServiceDesc, gripql.Edit_ServiceDesc, gripql.Job_ServiceDesc, gripql.Configure_ServiceDesc}
 	type meth struct {
 		name, kind string
@@ -176,8 +241,15 @@ func runC05(ctx *Ctx) error {
 		if err := json.Unmarshal(ctx.Replay, &in); err != nil {
 			return err
 		}
+		if in.Basic != nil {
+			addBasicCase(ctx, *in.Basic)
+			return nil
+		}
 		inputs = []c05Input{in}
 	} else {
+		for _, b := range basicCases() {
+			addBasicCase(ctx, b)
+		}
 		policies := []int{-1, -2, 1, 2, 3, 4, 5, 6}
 		if ctx.Thorough() {
 			for p := 7; p < 40; p++ {
@@ -294,8 +366,8 @@ func runC05(ctx *Ctx) error {
 			recv = "(Some " + coq.StrList(received) + ")"
 		}
 		elems := coq.StrList(in.Elems)
-		cc := coq.Record("cmethod", coq.Str(in.Method), "ckind", in.Kind, "ccred", cred, "cgraph", coq.Str(in.Graph), "cgrants", coq.List(grants),
-			"celems", elems, "cverdict", vcoq, "cenforce", coq.List(calls), "creceived", recv)
+		cc := "(CServe " + coq.Record("cmethod", coq.Str(in.Method), "ckind", in.Kind, "ccred", cred, "cgraph", coq.Str(in.Graph), "cgrants", coq.List(grants),
+			"celems", elems, "cverdict", vcoq, "cenforce", coq.List(calls), "creceived", recv) + ")"
 		key, _ := json.Marshal(in)
 		ctx.Add(Case{Input: in, Observed: ob, Coq: cc, Nontrivial: in.Cred == "A" || in.Cred == "B", Key: string(key),
 			Tags: []string{"kind=" + in.Kind, "cred=" + in.Cred, "verdict=" + verdict}})
